@@ -285,15 +285,21 @@ def wellformed(f):
             bad.append('variable %s ncattrs fails: %r' % (k, e))
     try:
         for a in f.ncattrs():
-            try:
-                getattr(f, a)
-            except Exception as e:
-                bad.append('global attribute %s listed but not retrievable: '
-                           '%r' % (a, e))
-            try:
-                f.getncattr(a)
-            except Exception as e:
-                bad.append('getncattr(%s) fails: %r' % (a, e))
+            # retrievable through the netCDF interface (plain getattr on a
+            # netCDF4 dataset is shadowed for names like scale or mask by
+            # netCDF4-python itself)
+            if hasattr(f, 'getncattr'):
+                try:
+                    f.getncattr(a)
+                except Exception as e:
+                    bad.append('global attribute %s listed but '
+                               'getncattr fails: %r' % (a, e))
+            else:
+                try:
+                    getattr(f, a)
+                except Exception as e:
+                    bad.append('global attribute %s listed but not '
+                               'retrievable: %r' % (a, e))
     except Exception as e:
         bad.append('ncattrs fails: %r' % (e,))
     return bad
